@@ -549,3 +549,933 @@ def _r19_1_get_imports_map(ctx, m):
   if not entries:
     ctx.bad("get_imports_map:entry<-output[dep]", RUN, fn.lineno,
             "no imports-map entry is inserted for the direct dependencies")
+
+
+# -- R19.2 ---------------------------------------------------------------------------
+
+def _default_output_origin(m, rd, expr):
+  """True iff every origin of `expr` is the self.write_default_pyi() call."""
+  os_ = rd.origins(expr)
+  return bool(os_) and all(
+      o.kind == "expr" and _self_method(o.expr) == "write_default_pyi"
+      for o in os_)
+
+
+@rule("R19.2", "C19", floor=6)
+def r19_2(ctx):
+  """Imports map and ninja `|` dependencies are computed from the same deps."""
+  m = _model(ctx)
+  mod, rd = m.mod, m.rd_sb
+  a = m.gim_args[m.g_deps]
+  if not isinstance(a, ast.Name):
+    raise AnalysisError("setup_build: deps argument of get_imports_map is not a name")
+  a_defs = rd.defs_of(a)
+  # the deps argument of write_build_statement
+  d_arg = m.wbs_args[m.w_deps]
+  origins = rd.origins(d_arg)
+  o = _one(origins, "origin of the deps passed to write_build_statement")
+  comp = strip_iter_wrappers(o.expr) if o.kind == "expr" else None
+  if not isinstance(comp, (ast.GeneratorExp, ast.ListComp, ast.SetComp)) \
+      or len(comp.generators) != 1:
+    # understood-and-wrong: the ninja deps are the module list itself etc.
+    ctx.bad("setup_build:ninja-deps-same-binding", RUN, d_arg.lineno,
+            f"the deps given to write_build_statement come from {o.describe()}, "
+            "not from a comprehension over the deps given to get_imports_map",
+            {"origin": o.describe()})
+    return
+  gen = comp.generators[0]
+  it = gen.iter
+  same = isinstance(it, ast.Name) and rd.defs_of(it) == a_defs \
+      and _is_loop_binding(m, a_defs)
+  ctx.check(same, "setup_build:ninja-deps-same-binding", RUN, comp.lineno,
+            f"get_imports_map receives {src(a)} bound by "
+            f"{[d.describe() for d in a_defs]} but the ninja dependencies "
+            f"iterate over {src(it)} bound by "
+            f"{[d.describe() for d in rd.defs_of(it)] if isinstance(it, ast.Name) else 'an expression'}"
+            "; both must be the plan loop's own deps binding",
+            {"imports_map_deps": [d.describe() for d in a_defs],
+             "ninja_deps_iter": src(it)})
+  # element: module_to_output[m]
+  var = gen.target
+  elt = comp.elt
+
+  def is_out_read(e):
+    return isinstance(e, ast.Subscript) and isinstance(e.value, ast.Name) \
+        and rd.defs_of(e.value) == {m.out_def} and isinstance(e.slice, ast.Name) \
+        and isinstance(var, ast.Name) and e.slice.id == var.id \
+        and next(iter(rd.defs_of(e.slice))).node is gen
+  ctx.check(is_out_read(elt), "setup_build:ninja-deps-are-outputs", RUN,
+            elt.lineno,
+            f"each ninja dependency must be {m.out_def.name}[m] for the "
+            f"iterated m (subscript, KeyError when missing); found {src(elt)}",
+            {"element": src(elt)})
+  # filters: only `module_to_output[m] != default_output`
+  conds = []
+  for c in gen.ifs:
+    conds.extend(c.values if isinstance(c, ast.BoolOp) and isinstance(c.op, ast.And)
+                 else [c])
+  bad_f = []
+  for c in conds:
+    ok = isinstance(c, ast.Compare) and len(c.ops) == 1 \
+        and isinstance(c.ops[0], (ast.NotEq, ast.IsNot))
+    if ok:
+      l, r = c.left, c.comparators[0]
+      ok = (is_out_read(l) and _default_output_origin(m, rd, r)) or \
+           (is_out_read(r) and _default_output_origin(m, rd, l))
+    if not ok:
+      bad_f.append(src(c))
+  ctx.check(not bad_f, "setup_build:ninja-deps-filter", RUN, comp.lineno,
+            f"filter(s) {bad_f} drop dependencies from the `|` list that are "
+            "still in the imports map; only the default stub (written before "
+            "ninja starts) may be left out",
+            {"filters": [src(c) for c in conds]})
+  # P3: map and output stored in the same iteration, for the same module
+  map_stores = [(_classify(mod, u)) for u in _uses_of(rd, m.sb, m.map_def)]
+  for kind, node in map_stores:
+    if kind not in ("store", "read", "contains") and not (
+        kind == "arg" and node is m.gim_call):
+      raise AnalysisError(
+          f"setup_build: {m.map_def.name} used as `{kind}` (not tracked)")
+  ms = [n for k, n in map_stores if k == "store"]
+  ms = _one(ms, f"store into {m.map_def.name}")
+  ms_stmt = _store_stmt(mod, ms)
+  ms_val = rd.origins(ms_stmt.value)
+  out_store = None
+  for use in _uses_of(rd, m.sb, m.out_def):
+    kind, node = _classify(mod, use)
+    if kind == "store":
+      st = _store_stmt(mod, node)
+      if any(o.kind == "expr" and o.expr is m.wbs_call for o in rd.origins(st.value)):
+        out_store = (node, st)
+  if out_store is None:
+    raise AnalysisError("setup_build: store of the write_build_statement result not found")
+  on, ost = out_store
+  k1 = rd.defs_of(ms.slice) if isinstance(ms.slice, ast.Name) else frozenset()
+  k2 = rd.defs_of(on.slice) if isinstance(on.slice, ast.Name) else frozenset()
+  mod_arg = m.wbs_args[m.w_module]
+  k3 = rd.defs_of(mod_arg) if isinstance(mod_arg, ast.Name) else frozenset()
+  ok = (len(ms_val) == 1 and ms_val[0].kind == "expr" and ms_val[0].expr is m.gim_call
+        and _is_loop_binding(m, k1) and k1 == k2 == k3
+        and executes_before(mod, m.sb, lambda u: u is ms_stmt, ost))
+  ctx.check(ok, "setup_build:map-and-output-same-iteration", RUN, ost.lineno,
+            f"{m.map_def.name}[{src(ms.slice)}] (value "
+            f"{[o.describe() for o in ms_val]}) and "
+            f"{m.out_def.name}[{src(on.slice)}] must be stored for the plan "
+            "loop's module in the same iteration, the map first, so that an "
+            "inherited map always belongs to the step producing the output",
+            {"map_key": [d.describe() for d in k1],
+             "output_key": [d.describe() for d in k2],
+             "built_module": [d.describe() for d in k3]})
+  # the imports file of the step holds this step's map
+  imp = rd.origins(m.wbs_args[m.w_imports])
+  held = rd.origins(m.wi_args[m.i_map])
+  ok = len(imp) == 1 and imp[0].kind == "expr" and imp[0].expr is m.wi_call \
+      and len(held) == 1 and held[0].kind == "expr" and held[0].expr is m.gim_call
+  ctx.check(ok, "setup_build:imports-file-holds-this-steps-map", RUN,
+            m.wi_call.lineno,
+            f"write_build_statement's imports file comes from "
+            f"{[o.describe() for o in imp]} and that file is written from "
+            f"{[o.describe() for o in held]}; expected write_imports(..) of "
+            "the get_imports_map(..) result of this iteration",
+            {"imports": [o.describe() for o in imp],
+             "map": [o.describe() for o in held]})
+  # write_build_statement: the deps parameter becomes the `|` list
+  _deps_field(ctx, m, want="pipe")
+
+
+def _deps_field(ctx, m, want):
+  """Analyses the {deps} field of the build line (shared by R19.2/R19.4)."""
+  mod, rdw, bs = m.mod, m.rd_wbs, m.build_stmt
+  if bs.deps is None:
+    if want == "pipe":
+      ctx.bad("write_build_statement:deps-are-implicit-dependencies", RUN,
+              bs.write.lineno, "the build line has no dependency field")
+    return
+  p_deps = rdw.params[m.w_deps]
+  origins = rdw.origins(bs.deps)
+  pipe_ok, esc_ok, n_join = True, True, 0
+  facts = []
+  for o in origins:
+    if o.kind != "expr":
+      raise AnalysisError(f"write_build_statement: deps field comes from {o.describe()}")
+    e = o.expr
+    if try_fold(e, mod=mod, default=None) == "":
+      facts.append("''")
+      continue
+    toks = None
+    if isinstance(e, ast.BinOp) and isinstance(e.op, ast.Add):
+      prefix = try_fold(e.left, mod=mod)
+      join = e.right
+    elif isinstance(e, ast.JoinedStr) and len(e.values) == 2 and isinstance(
+        e.values[0], ast.Constant) and isinstance(e.values[1], ast.FormattedValue):
+      prefix = e.values[0].value
+      join = e.values[1].value
+    else:
+      prefix, join = "", e
+    if not (isinstance(join, ast.Call) and isinstance(join.func, ast.Attribute)
+            and join.func.attr == "join" and len(join.args) == 1):
+      raise AnalysisError(
+          f"write_build_statement: deps field value {src(e)[:60]} has unknown shape")
+    n_join += 1
+    sep = try_fold(join.func.value, mod=mod)
+    comp = join.args[0]
+    if not isinstance(comp, (ast.GeneratorExp, ast.ListComp)) or len(comp.generators) != 1:
+      raise AnalysisError("write_build_statement: deps are not joined from a comprehension")
+    g = comp.generators[0]
+    it = strip_iter_wrappers(g.iter)
+    from_param = isinstance(it, ast.Name) and rdw.defs_of(it) == {p_deps}
+    facts.append({"prefix": prefix, "separator": sep, "iter": src(g.iter),
+                  "filters": [src(c) for c in g.ifs], "element": src(comp.elt)})
+    pipe_ok = pipe_ok and isinstance(prefix, str) and prefix.strip() == "|" \
+        and prefix.startswith(" ") and prefix.endswith(" ") and sep == " " \
+        and from_param and not g.ifs
+    inner = None
+    if isinstance(comp.elt, ast.Call) and dotted(comp.elt.func) == "escape_ninja_path" \
+        and len(comp.elt.args) == 1:
+      inner = comp.elt.args[0]
+    esc_ok = esc_ok and isinstance(inner, ast.Name) and isinstance(g.target, ast.Name) \
+        and inner.id == g.target.id
+  if not n_join:
+    pipe_ok = esc_ok = False
+  if want == "pipe":
+    ctx.check(pipe_ok, "write_build_statement:deps-are-implicit-dependencies",
+              RUN, bs.write.lineno,
+              "every element of the deps parameter must appear, space "
+              "separated, after ' | ' directly behind the input of the build "
+              f"line (ninja implicit dependencies); found {facts}",
+              {"values": facts})
+  else:
+    ctx.check(esc_ok, "write_build_statement:escaped:dep", RUN, bs.write.lineno,
+              f"each dependency must be passed through escape_ninja_path: {facts}",
+              {"values": facts})
+
+
+# -- R19.3 ---------------------------------------------------------------------------
+
+def _stage_table(mod):
+  cls = mod.cls("Stage")
+  out = {}
+  for st in cls.body:
+    if isinstance(st, ast.Assign) and len(st.targets) == 1 and isinstance(
+        st.targets[0], ast.Name):
+      v = try_fold(st.value, mod=mod, default=_NOFOLD)
+      if v is not _NOFOLD:
+        out[st.targets[0].id] = v
+  for need in ("SINGLE_PASS", "FIRST_PASS", "SECOND_PASS"):
+    if need not in out:
+      raise AnalysisError(f"Stage.{need} not found")
+  if len(set(out.values())) != len(out):
+    raise AnalysisError("Stage constants are not pairwise distinct")
+  return out
+
+
+def _stage_of(mod, expr, stages):
+  """Name of the Stage constant `expr` denotes, or None."""
+  if isinstance(expr, ast.Attribute) and dotted(expr.value) == "Stage" \
+      and expr.attr in stages:
+    return expr.attr
+  return None
+
+
+def _possible_stages(m, rd, stmt, stages, extra=()):
+  """Stages under which `stmt` can execute, from `stage == Stage.X` guards."""
+  poss = set(stages)
+  seen = []
+  for test, pol in list(flow.guards(m.mod.parent, stmt)) + list(extra):
+    tests = [(test, pol)]
+    if isinstance(test, ast.BoolOp) and isinstance(test.op, ast.And) and pol:
+      tests = [(v, True) for v in test.values]
+    if isinstance(test, ast.BoolOp) and isinstance(test.op, ast.Or) and not pol:
+      tests = [(v, False) for v in test.values]
+    for t, p in tests:
+      if not (isinstance(t, ast.Compare) and len(t.ops) == 1):
+        continue
+      l, r, op = t.left, t.comparators[0], t.ops[0]
+      names = None
+      if isinstance(op, (ast.Eq, ast.Is, ast.NotEq, ast.IsNot)):
+        for a, b in ((l, r), (r, l)):
+          s = _stage_of(m.mod, b, stages)
+          if s and isinstance(a, ast.Name) and _is_loop_binding(m, rd.defs_of(a)):
+            names = {s}
+            var = a
+        if isinstance(op, (ast.NotEq, ast.IsNot)):
+          p = not p
+      elif isinstance(op, (ast.In, ast.NotIn)) and isinstance(r, (ast.Tuple, ast.List, ast.Set)):
+        ss = [_stage_of(m.mod, e, stages) for e in r.elts]
+        if all(ss) and isinstance(l, ast.Name) and _is_loop_binding(m, rd.defs_of(l)):
+          names = set(ss)
+          var = l
+        if isinstance(op, ast.NotIn):
+          p = not p
+      if names is None:
+        continue
+      seen.append(next(iter(rd.defs_of(var))).path)
+      poss = (poss & names) if p else (poss - names)
+  return poss, seen
+
+
+def _tuple_shape(mod, rd, fn, expr):
+  """Element expressions of a tuple-valued expression (None = unknown elt)."""
+  if isinstance(expr, ast.Tuple):
+    if any(isinstance(e, ast.Starred) for e in expr.elts):
+      raise AnalysisError("yield: starred tuple element")
+    return list(expr.elts)
+  if isinstance(expr, ast.BinOp) and isinstance(expr.op, ast.Add):
+    return _tuple_shape(mod, rd, fn, expr.left) + _tuple_shape(mod, rd, fn, expr.right)
+  if isinstance(expr, ast.Subscript) and isinstance(expr.value, ast.Name):
+    d = rd.single_def(expr.value, "list of pending modules")
+    if d.kind == "assign" and _empty_list(d.value):
+      lens = set()
+      for use in _uses_of(rd, fn, d):
+        kind, node = _classify(mod, use)
+        if kind == "method:append" and len(node.args) == 1 and isinstance(
+            node.args[0], ast.Tuple):
+          lens.add(len(node.args[0].elts))
+        elif kind in ("read", "iterate", "arg", "contains"):
+          continue
+        else:
+          raise AnalysisError(f"yield: list {d.name} used as {kind}")
+      if len(lens) == 1:
+        return [None] * lens.pop()
+  raise AnalysisError(f"yield: cannot determine the tuple shape of {src(expr)}")
+
+
+@rule("R19.3", "C19", floor=13)
+def r19_3(ctx):
+  """Pass suffixes and the two-pass plan for import cycles."""
+  m = _model(ctx)
+  mod, rd = m.mod, m.rd_sb
+  stages = _stage_table(mod)
+  fps = try_fold(mod.const("FIRST_PASS_SUFFIX"), mod=mod, default=_NOFOLD)
+  if fps is _NOFOLD:
+    raise AnalysisError("FIRST_PASS_SUFFIX is not a constant")
+  ctx.check(isinstance(fps, str) and fps != "" and not (set(fps) & NINJA_ESCAPABLE)
+            and "/" not in fps,
+            "FIRST_PASS_SUFFIX:non-empty", RUN, mod.const("FIRST_PASS_SUFFIX").lineno,
+            f"FIRST_PASS_SUFFIX = {fps!r}: first-pass outputs must have a name "
+            "distinct from the final stub of the same module",
+            {"value": fps})
+  # suffix passed to write_build_statement / write_imports
+  s_arg = m.wbs_args[m.w_suffix]
+  i_arg = m.wi_args[m.i_suffix]
+  if not isinstance(s_arg, ast.Name) or not isinstance(i_arg, ast.Name):
+    raise AnalysisError("setup_build: suffix arguments are not local names")
+  defs = rd.defs_of(s_arg)
+  ctx.check(defs == rd.defs_of(i_arg) and s_arg.id == i_arg.id,
+            "setup_build:same-suffix-for-imports-and-output", RUN, s_arg.lineno,
+            "write_imports and write_build_statement must receive the same "
+            "suffix binding (a first-pass step must read its own imports file)",
+            {"output_suffix": sorted(d.describe() for d in defs),
+             "imports_suffix": sorted(d.describe() for d in rd.defs_of(i_arg))})
+  wbs_stmt = mod.enclosing_stmt(m.wbs_call)
+  ctx.check(rd.assigned_on_every_path(s_arg.id, wbs_stmt)
+            and all(d.node in set(ast.walk(m.loop)) for d in defs),
+            "setup_build:suffix-assigned-each-iteration", RUN, wbs_stmt.lineno,
+            "on some path through the loop body the suffix is not assigned, so "
+            "the value of the previous step would be reused",
+            {"defs": sorted(d.describe() for d in defs)})
+  stage_paths = set()
+  covered = set()
+  for d in sorted(defs, key=lambda d: d.node.lineno):
+    if d.kind != "assign" or d.path:
+      raise AnalysisError(f"setup_build: suffix bound by {d.describe()}")
+    arms = [(d.value, ())]
+    if isinstance(d.value, ast.IfExp):
+      arms = [(d.value.body, ((d.value.test, True),)),
+              (d.value.orelse, ((d.value.test, False),))]
+    for val, extra in arms:
+      v = _fold_attr(mod, val)
+      if not isinstance(v, str):
+        raise AnalysisError(f"setup_build: suffix value {src(val)} is not a constant")
+      poss, seen = _possible_stages(m, rd, d.node, stages, extra)
+      stage_paths.update(seen)
+      if len(poss) == len(stages):
+        raise AnalysisError(
+            f"setup_build: suffix assignment at line {d.node.lineno} is not "
+            "guarded by a test on the stage")
+      covered |= poss
+      want = {"FIRST_PASS"} if v != "" else {"SINGLE_PASS", "SECOND_PASS"}
+      ok = poss <= want and (v == "" or v == fps)
+      for s in sorted(poss) or ["<unreachable>"]:
+        ctx.check(ok, f"setup_build:suffix@{s}", RUN, d.node.lineno,
+                  f"suffix {v!r} is chosen under stage(s) {sorted(poss)}; the "
+                  "final name ('') is for SINGLE_PASS/SECOND_PASS only and "
+                  "FIRST_PASS must use FIRST_PASS_SUFFIX",
+                  {"suffix": v, "stages": sorted(poss)})
+  if len(stage_paths) != 1:
+    raise AnalysisError("setup_build: stage variable not identified")
+  m.pos_stage = next(iter(stage_paths))
+  # outputs really carry the suffix
+  for fn, rdx, pname, label in (
+      (m.wbs, m.rd_wbs, m.w_suffix, "write_build_statement"),
+      (m.wi, ReachingDefs(mod, m.wi), m.i_suffix, "write_imports")):
+    rets = [n for n in walk_no_nested(fn) if isinstance(n, ast.Return)]
+    ok = bool(rets)
+    shown = []
+    for r in rets:
+      os_ = rdx.origins(r.value)
+      shown += [o.describe() for o in os_]
+      for o in os_:
+        ok = ok and o.kind == "expr" and any(
+            isinstance(n, ast.Name) and n.id == pname
+            and rdx.defs_of(n) == {rdx.params[pname]} for n in ast.walk(o.expr))
+    ctx.check(ok, f"{label}:output-name-uses-suffix", RUN, fn.lineno,
+              f"the path returned by {label} ({shown}) does not depend on its "
+              "suffix parameter: both passes would write the same file",
+              {"returned": shown})
+  _r19_3_yields(ctx, m, stages)
+
+
+def _r19_3_yields(ctx, m, stages):
+  mod, fn = m.mod, m.ysm
+  rd = ReachingDefs(mod, fn)
+  srd = m.rd_sb
+  pos_stage = m.pos_stage
+  if len(pos_stage) != 1:
+    raise AnalysisError("setup_build: stage is not a direct element of the yield")
+  pos_stage = pos_stage[0]
+
+  def pos_of(expr, what):
+    if not isinstance(expr, ast.Name):
+      raise AnalysisError(f"setup_build: {what} is not a plain name")
+    ds = srd.defs_of(expr)
+    if not _is_loop_binding(m, ds) or len(next(iter(ds)).path) != 1:
+      raise AnalysisError(f"setup_build: {what} is not an element of the plan tuple")
+    return next(iter(ds)).path[0]
+  pos_deps = pos_of(m.gim_args[m.g_deps], "deps")
+  pos_action = pos_of(m.wbs_args[m.w_action], "action")
+  pos_module = pos_of(m.wbs_args[m.w_module], "module")
+  check_val = _fold_attr(mod, ast.parse("Action.CHECK", mode="eval").body)
+  if check_val is _NOFOLD:
+    raise AnalysisError("Action.CHECK is not a constant")
+
+  # must-mode facts: ("ok", name) = name is certainly not Action.CHECK
+  def check_test(t):
+    if isinstance(t, ast.Compare) and len(t.ops) == 1 and isinstance(
+        t.ops[0], (ast.Eq, ast.Is)):
+      for a, b in ((t.left, t.comparators[0]), (t.comparators[0], t.left)):
+        if isinstance(a, ast.Name) and _fold_attr(mod, b) == check_val:
+          return a.id
+    return None
+
+  def gen(unit):
+    out = []
+    par = mod.parent.get(unit)
+    if isinstance(par, ast.If) and par.test is unit:
+      nm = check_test(unit)
+      if nm and len(par.body) == 1 and isinstance(par.body[0], ast.Assign) \
+          and [dotted(t) for t in par.body[0].targets] == [nm]:
+        out.append(("ok", nm))
+    if isinstance(unit, ast.Assign) and len(unit.targets) == 1 and isinstance(
+        unit.targets[0], ast.Name):
+      v = _fold_attr(mod, unit.value)
+      if v is _NOFOLD:
+        out.append(("idiom", unit.targets[0].id))
+      elif v != check_val:
+        out.append(("ok", unit.targets[0].id))
+    return out
+
+  def kill(unit):
+    names = {d.name for d in rd._defs_of_unit(unit)}
+    return (lambda f: f[1] in names) if names else None
+  must = flow.flow(fn, gen, kill, mode="must")
+  may_idiom = flow.flow(fn, gen, kill, mode="may")
+
+  yields = [n for n in walk_no_nested(fn) if isinstance(n, ast.Yield)]
+  if not yields:
+    raise AnalysisError("yield_sorted_modules yields nothing")
+  counts = {}
+  for y in yields:
+    if y.value is None:
+      raise AnalysisError("bare yield in yield_sorted_modules")
+    shape = _tuple_shape(mod, rd, fn, y.value)
+    st_e = shape[pos_stage] if len(shape) > pos_stage else None
+    stage = _stage_of(mod, st_e, stages) if st_e is not None else None
+    counts[stage] = counts.get(stage, 0) + 1
+    tag = f"{stage}#{counts[stage]}" if counts[stage] > 1 else str(stage)
+    ok = len(shape) == m.arity and stage is not None
+    ctx.check(ok, f"yield_sorted_modules:yield-shape:{tag}", RUN, y.lineno,
+              f"yield of {len(shape)} elements with {src(st_e) if st_e is not None else '?'} "
+              f"at position {pos_stage}; setup_build unpacks {m.arity} "
+              "elements and reads the stage there",
+              {"elements": [src(e) if e is not None else "?" for e in shape]})
+    if not ok:
+      continue
+    ystmt = rd.stmt_of(y)
+    if stage == "FIRST_PASS":
+      act = shape[pos_action]
+      if not isinstance(act, ast.Name):
+        raise AnalysisError("FIRST_PASS yield: action element is not a name")
+      st = must.before.get(ystmt)
+      if st is None:
+        raise AnalysisError("FIRST_PASS yield is unreachable")
+      good = ("ok", act.id) in st
+      if not good and ("idiom", act.id) in (may_idiom.before.get(ystmt) or ()):
+        raise AnalysisError(
+            "FIRST_PASS yield: the action is rebound by an expression the "
+            "rule cannot evaluate")
+      ctx.check(good, f"yield_sorted_modules:first-pass-never-checks:{tag}", RUN,
+                y.lineno,
+                "a FIRST_PASS step can be yielded with action CHECK: the first "
+                "pass over a cycle runs without its peers' stubs and must "
+                "only infer (CHECK -> INFER rewrite must dominate the yield)",
+                {"action_defs": sorted(d.describe() for d in rd.defs_of(act))})
+    if stage == "SECOND_PASS":
+      _second_pass_deps(ctx, m, rd, fn, y, ystmt, shape, pos_deps, pos_module, tag)
+  for need in ("SINGLE_PASS", "FIRST_PASS", "SECOND_PASS"):
+    if need not in counts:
+      raise AnalysisError(f"yield_sorted_modules: no {need} yield")
+
+
+def _second_pass_deps(ctx, m, rd, fn, y, ystmt, shape, pos_deps, pos_module, tag):
+  mod = m.mod
+  dep = shape[pos_deps]
+  construct = f"yield_sorted_modules:second-pass-deps-include-cycle:{tag}"
+  if not isinstance(dep, ast.Name):
+    raise AnalysisError("SECOND_PASS yield: deps element is not a name")
+  ds = rd.defs_of(dep)
+  facts = {"deps_defs": sorted(d.describe() for d in ds)}
+  d = next(iter(ds)) if len(ds) == 1 else None
+  if d is None or d.kind != "aug" or not isinstance(d.op, ast.Add):
+    ctx.bad(construct, RUN, y.lineno,
+            "the deps yielded for SECOND_PASS are not (on every path) the "
+            "group's deps extended by the cycle's own modules "
+            f"(bindings reaching the yield: {facts['deps_defs']})", facts)
+    return
+  src_list = strip_iter_wrappers(d.value)
+  if not isinstance(src_list, ast.Name):
+    raise AnalysisError("SECOND_PASS: deps extension is not built from a local list")
+  ld = rd.single_def(src_list, "second-pass deps list")
+  if ld.kind != "assign" or not _empty_list(ld.value):
+    raise AnalysisError("SECOND_PASS: deps extension list is not created empty")
+  # the loop that yields SECOND_PASS iterates over the same list of modules
+  loop2 = mod.parent.get(ystmt)
+  while loop2 is not None and not isinstance(loop2, ast.For):
+    loop2 = mod.parent.get(loop2)
+  if loop2 is None or not isinstance(loop2.iter, ast.Name):
+    raise AnalysisError("SECOND_PASS yield is not inside a loop over a local list")
+  mods2 = rd.defs_of(loop2.iter)
+  appended = False
+  why = "no unconditional append of every cycle module found"
+  for use in _uses_of(rd, fn, ld):
+    kind, node = _classify(mod, use)
+    if kind == "method:append":
+      a = node.args[0] if len(node.args) == 1 else None
+      if not isinstance(a, ast.Name):
+        continue
+      ads = rd.defs_of(a)
+      ad = next(iter(ads)) if len(ads) == 1 else None
+      if ad is None or ad.kind != "for" or not isinstance(ad.node.iter, ast.Name):
+        continue
+      st = mod.enclosing_stmt(node)
+      g = flow.guards(mod.parent, st, stop=ad.node)
+      same_list = rd.defs_of(ad.node.iter) == mods2
+      if same_list and not g and ad.path == (pos_module,) and executes_before(
+          mod, fn, lambda u, it=ad.node.iter: u is it, d.node):
+        appended = True
+      facts["append"] = {"value": ad.describe(), "guards": [src(t) for t, _ in g],
+                         "same_module_list": same_list}
+    elif kind in ("arg", "read", "iterate", "contains"):
+      continue
+    else:
+      raise AnalysisError(f"SECOND_PASS: deps list used as {kind}")
+  # the extension happens after the first-pass loop completed, before this yield
+  aug_before = executes_before(mod, fn, lambda u: u is d.node, ystmt)
+  ctx.check(appended and aug_before, construct, RUN, y.lineno,
+            f"second-pass deps: {why if not appended else 'extension does not dominate the yield'}",
+            facts)
+
+
+# -- R19.4 ---------------------------------------------------------------------------
+
+def _single_char_class(pattern):
+  """(set of characters a one-character pattern matches, group index)."""
+  try:
+    p = _sre_parser.parse(pattern)
+  except re.error as e:
+    raise AnalysisError(f"escape_ninja_path: pattern does not parse: {e}") from e
+  items = list(p)
+  group = 0
+  if len(items) == 1 and str(items[0][0]) == "SUBPATTERN":
+    group, add, sub_flags, sub = items[0][1]
+    items = list(sub)
+    group = group or 0
+  if len(items) != 1:
+    raise AnalysisError(
+        f"escape_ninja_path: pattern {pattern!r} is not a single character class")
+  op, av = items[0]
+  name = str(op)
+  universe = [chr(i) for i in range(0x300)]
+  if name == "LITERAL":
+    return {chr(av)}, group
+  if name == "ANY":
+    return set(universe) - {"\n"}, group
+  if name != "IN":
+    raise AnalysisError(f"escape_ninja_path: pattern item {name} not understood")
+  chars, negate, opaque = set(), False, False
+  for iop, iav in av:
+    iname = str(iop)
+    if iname == "LITERAL":
+      chars.add(chr(iav))
+    elif iname == "RANGE":
+      chars.update(chr(c) for c in range(iav[0], min(iav[1], 0x2FF) + 1))
+    elif iname == "NEGATE":
+      negate = True
+    else:
+      opaque = True
+  if opaque:
+    # categories (\s, \w ..): evaluate the class itself with the reference engine
+    cre = re.compile(pattern)
+    return {c for c in universe if cre.fullmatch(c)}, group
+  if negate:
+    chars = set(universe) - chars
+  return chars, group
+
+
+@rule("R19.4", "C19", floor=8)
+def r19_4(ctx):
+  """Every path field of the build line is escaped; the escape is ninja's."""
+  m = _model(ctx)
+  mod, rdw, bs = m.mod, m.rd_wbs, m.build_stmt
+  imports_var = None
+  for name, expr in bs.vars.items():
+    inner = _escape_args(rdw, expr)
+    names = set()
+    for n in ast.walk(expr):
+      if isinstance(n, ast.Name) and rdw.defs_of(n) == {rdw.params[m.w_imports]}:
+        names.add(n.id)
+    if names:
+      imports_var = name
+  if imports_var is None:
+    raise AnalysisError(
+        "write_build_statement: no build variable carries the imports file")
+  m.imports_var = imports_var
+  fields = [("output", bs.output), ("input", bs.input),
+            (f"var:{imports_var}", bs.vars[imports_var])]
+  for label, expr in fields:
+    inner = _escape_args(rdw, expr)
+    ok = inner is not None
+    if ok:
+      for x in inner:  # not escaped twice
+        ok = ok and _escape_args(rdw, x) is None
+    ctx.check(ok, f"write_build_statement:escaped:{label}", RUN, expr.lineno,
+              f"the {label} field of the build statement is {src(expr)}: a path "
+              "must pass through escape_ninja_path exactly once (a space, ':' "
+              "or '$' in it would otherwise split or rewrite the path)",
+              {"field": src(expr)})
+  _deps_field(ctx, m, want="escape")
+  # the escape function itself
+  fn = mod.func("escape_ninja_path")
+  rd = ReachingDefs(mod, fn)
+  rets = [n for n in walk_no_nested(fn) if isinstance(n, ast.Return)]
+  r = _one(rets, "return in escape_ninja_path")
+  call = r.value
+  if not (isinstance(call, ast.Call) and dotted(call.func) == "re.sub"):
+    raise AnalysisError("escape_ninja_path does not return re.sub(...)")
+  if any(isinstance(a, ast.Starred) for a in call.args):
+    raise AnalysisError("escape_ninja_path: re.sub(*args)")
+  names = ["pattern", "repl", "string", "count", "flags"]
+  bound = dict(zip(names, call.args))
+  for k in call.keywords:
+    bound[k.arg] = k.value
+  pat = try_fold(bound.get("pattern"), mod=mod) if "pattern" in bound else None
+  repl = try_fold(bound.get("repl"), mod=mod) if "repl" in bound else None
+  if not isinstance(pat, str) or not isinstance(repl, str):
+    raise AnalysisError("escape_ninja_path: pattern/replacement are not constants")
+  flags = try_fold(bound["flags"], mod=mod, default=_NOFOLD) if "flags" in bound else 0
+  if flags != 0:
+    raise AnalysisError("escape_ninja_path: re.sub with flags")
+  chars, group = _single_char_class(pat)
+  shown = sorted(chars)[:12]
+  ctx.check(chars >= NINJA_ESCAPABLE, "escape_ninja_path:class-covers-specials",
+            RUN, call.lineno,
+            f"the pattern {pat!r} matches {shown} and misses "
+            f"{sorted(NINJA_ESCAPABLE - chars)}; newline, space, ':' and '$' end "
+            "or rewrite a path in a ninja build line",
+            {"pattern": pat, "class": shown})
+  ctx.check(chars <= NINJA_ESCAPABLE, "escape_ninja_path:class-only-escapable",
+            RUN, call.lineno,
+            f"the pattern {pat!r} also matches {sorted(chars - NINJA_ESCAPABLE)[:8]}"
+            ": '$' followed by such a character is a variable reference or a "
+            "lexer error in ninja, not that character",
+            {"pattern": pat, "extra": sorted(chars - NINJA_ESCAPABLE)[:8]})
+  try:
+    tmpl = _sre_parser.parse_template(repl, re.compile(pat))
+  except (re.error, IndexError) as e:
+    raise AnalysisError(f"escape_ninja_path: replacement does not parse: {e}") from e
+  ok = list(tmpl) in (["$", group, ""], ["$", 0, ""])
+  ctx.check(ok, "escape_ninja_path:replacement-prefixes-dollar", RUN, call.lineno,
+            f"the replacement {repl!r} parses to {list(tmpl)}; it must be '$' "
+            "followed by the matched character",
+            {"replacement": repl, "template": [str(x) for x in tmpl]})
+  s_arg = bound.get("string")
+  whole = isinstance(s_arg, ast.Name) and len(rd.positional) == 1 \
+      and rd.defs_of(s_arg) == {rd.params[rd.positional[0]]} \
+      and try_fold(bound["count"], mod=mod, default=1) == 0 if "count" in bound \
+      else isinstance(s_arg, ast.Name) and len(rd.positional) == 1 \
+      and rd.defs_of(s_arg) == {rd.params[rd.positional[0]]}
+  ctx.check(whole, "escape_ninja_path:all-occurrences-of-the-argument", RUN,
+            call.lineno,
+            "re.sub must rewrite every occurrence in the path argument itself "
+            f"(string={src(s_arg) if s_arg is not None else None}, "
+            f"count={src(bound['count']) if 'count' in bound else 'absent'})",
+            {"string": src(s_arg) if s_arg is not None else None})
+
+
+# -- R19.5 ---------------------------------------------------------------------------
+
+def _writer_format(ctx, m):
+  """(separator, terminator, key_first, over_items_of_param) for write_imports."""
+  mod, fn = m.mod, m.wi
+  rd = ReachingDefs(mod, fn)
+  writes = [c for c in calls_in(fn) if isinstance(c.func, ast.Attribute)
+            and c.func.attr == "write"]
+  w = _one(writes, "write call in write_imports")
+  if len(w.args) != 1:
+    raise AnalysisError("write_imports: write() with unexpected arguments")
+  toks = template_tokens(w.args[0], mod)
+  if [t[0] for t in toks] not in (["field", "lit", "field", "lit"],
+                                  ["item", "lit", "item", "lit"]):
+    raise AnalysisError(
+        f"write_imports: line template has unknown shape {[t[0] for t in toks]}")
+  idx, iters = [], []
+  for t in (toks[0], toks[2]):
+    if t[0] == "item":
+      name, i = t[1], (t[2],)
+    else:
+      name, i = t[1], ()
+    if not isinstance(name, ast.Name):
+      raise AnalysisError("write_imports: template field is not a loop variable")
+    d = rd.single_def(name, "template field")
+    if d.kind not in ("for", "comp"):
+      raise AnalysisError(f"write_imports: field bound by {d.describe()}")
+    idx.append(tuple(d.path) + i)
+    iters.append(d.value)
+  if iters[0] is not iters[1]:
+    raise AnalysisError("write_imports: fields come from different loops")
+  it = strip_iter_wrappers(iters[0])
+  over = isinstance(it, ast.Call) and isinstance(it.func, ast.Attribute) \
+      and it.func.attr == "items" and not it.args \
+      and isinstance(it.func.value, ast.Name) \
+      and rd.defs_of(it.func.value) == {rd.params[m.i_map]}
+  g = flow.guards(mod.parent, mod.enclosing_stmt(w))
+  return {"sep": toks[1][1], "end": toks[3][1], "order": idx, "over_items": over,
+          "guards": [src(t) for t, _ in g], "line": w.lineno, "rd": rd}
+
+
+@rule("R19.5", "C19", floor=5)
+def r19_5(ctx):
+  """The imports-file writer and imports_map_loader._read_from_file agree."""
+  m = _model(ctx)
+  wf = _writer_format(ctx, m)
+  ctx.check(wf["order"] == [(0,), (1,)] and wf["end"] == "\n" and wf["sep"] != ""
+            and "\n" not in wf["sep"],
+            "write_imports:line=key-sep-value-newline", RUN, wf["line"],
+            f"each line must be '<short path><sep><output path>\\n' with the "
+            f"key first; found element order {wf['order']}, separator "
+            f"{wf['sep']!r}, terminator {wf['end']!r}",
+            {"order": [list(p) for p in wf["order"]], "sep": wf["sep"],
+             "end": wf["end"]})
+  ctx.check(wf["over_items"] and not wf["guards"],
+            "write_imports:writes-every-entry-of-the-map", RUN, wf["line"],
+            "the lines must be written for every item of the imports_map "
+            f"parameter, unconditionally (guards: {wf['guards']})",
+            {"guards": wf["guards"]})
+  _returns_written_path(ctx, m, m.wi, "write_imports")
+  # reader
+  lmod = get_module(ctx, LOADER)
+  fn = lmod.func("ImportsMapBuilder._read_from_file")
+  rd = ReachingDefs(lmod, fn)
+  splits = [c for c in calls_in(fn) if isinstance(c.func, ast.Attribute)
+            and c.func.attr in ("split", "rsplit", "partition", "rpartition")]
+  sp = _one(splits, "split call in _read_from_file")
+  st = lmod.enclosing_stmt(sp)
+  if not (isinstance(st, ast.Assign) and st.value is sp and len(st.targets) == 1
+          and isinstance(st.targets[0], ast.Tuple)
+          and all(isinstance(e, ast.Name) for e in st.targets[0].elts)):
+    raise AnalysisError("_read_from_file: split result is not unpacked into names")
+  names = ["sep", "maxsplit"]
+  bound = dict(zip(names, sp.args))
+  for k in sp.keywords:
+    bound[k.arg] = k.value
+  sep = try_fold(bound["sep"], mod=lmod, default=_NOFOLD) if "sep" in bound else None
+  maxsplit = try_fold(bound["maxsplit"], mod=lmod, default=_NOFOLD) \
+      if "maxsplit" in bound else -1
+  if sep is _NOFOLD or maxsplit is _NOFOLD:
+    raise AnalysisError("_read_from_file: split arguments are not constants")
+  ctx.check(sp.func.attr == "split" and sep == wf["sep"],
+            "_read_from_file:separator-matches-writer", LOADER, sp.lineno,
+            f"the reader uses .{sp.func.attr}({sep!r}, ..) but write_imports "
+            f"separates key and value with {wf['sep']!r}",
+            {"reader": sep, "writer": wf["sep"], "method": sp.func.attr})
+  ctx.check(sp.func.attr == "split" and maxsplit == 1
+            and len(st.targets[0].elts) == 2,
+            "_read_from_file:splits-once", LOADER, sp.lineno,
+            f"maxsplit is {maxsplit}: the value (an output path) may contain "
+            "the separator and must stay in one piece, the key is everything "
+            "before the first separator",
+            {"maxsplit": maxsplit, "targets": len(st.targets[0].elts)})
+  # order: first piece is the key of the (short_path, path) item
+  apps = [c for c in calls_in(fn) if isinstance(c.func, ast.Attribute)
+          and c.func.attr == "append" and len(c.args) == 1
+          and isinstance(c.args[0], ast.Tuple)]
+  ap = _one(apps, "items.append((key, value)) in _read_from_file")
+  paths = []
+  for e in ap.args[0].elts:
+    if not isinstance(e, ast.Name):
+      raise AnalysisError("_read_from_file: appended item is not built from names")
+    ds = rd.defs_of(e)
+    d = next(iter(ds)) if len(ds) == 1 else None
+    paths.append(d.path if d is not None and d.node is st else None)
+  rets = [n for n in walk_no_nested(fn) if isinstance(n, ast.Return)]
+  recv = ap.func.value
+  returned = isinstance(recv, ast.Name) and rets and all(
+      isinstance(r.value, ast.Name) and rd.defs_of(r.value) == rd.defs_of(recv)
+      for r in rets)
+  ctx.check(paths == [(0,), (1,)] and returned, "_read_from_file:key-first",
+            LOADER, ap.lineno,
+            f"the appended item takes split pieces {paths}; the writer puts "
+            "the short path first, so the item must be (piece 0, piece 1) and "
+            "the list of items must be what is returned",
+            {"pieces": [list(p) if p else None for p in paths]})
+
+
+# -- R19.6 ---------------------------------------------------------------------------
+
+@rule("R19.6", "C19", floor=5)
+def r19_6(ctx):
+  """`$` variables of the pytype-single command are those the build line sets."""
+  m = _model(ctx)
+  mod, bs, rdw = m.mod, m.build_stmt, m.rd_wbs
+  fn = mod.func("PytypeRunner.get_pytype_command_for_ninja")
+  rd = ReachingDefs(mod, fn)
+  # flag -> value table: dict literals bound in the function
+  table = {}
+  for n in walk_no_nested(fn):
+    if isinstance(n, ast.Dict):
+      for k, v in zip(n.keys, n.values):
+        kk = try_fold(k, mod=mod) if k is not None else None
+        vv = try_fold(v, mod=mod)
+        if isinstance(kk, str) and isinstance(vv, str) and vv.startswith("$"):
+          if kk in table:
+            raise AnalysisError(f"command: flag {kk} listed twice")
+          table[kk] = (vv, v.lineno)
+  refs = {}
+  for n in walk_no_nested(fn):
+    if isinstance(n, ast.Constant) and isinstance(n.value, str) and "$" in n.value:
+      for mm in re.finditer(r"\$(\w+|\{\w+\}|.)", n.value):
+        refs[mm.group(1).strip("{}")] = n.lineno
+  # which build variables carry what
+  roles = {}
+  for name, expr in bs.vars.items():
+    inner = _escape_args(rdw, expr)
+    if inner and len(inner) == 1 and isinstance(inner[0], ast.Name) \
+        and rdw.defs_of(inner[0]) == {rdw.params[m.w_imports]}:
+      roles["imports"] = name
+    if isinstance(expr, ast.Attribute) and isinstance(expr.value, ast.Name) \
+        and rdw.defs_of(expr.value) == {rdw.params[m.w_module]} and expr.attr == "name":
+      roles["module"] = name
+  defined = set(bs.vars) | NINJA_BUILTIN_VARS
+  for var, line in sorted(refs.items()):
+    ctx.check(var in defined, f"command:${var}-is-defined", RUN, line,
+              f"the command refers to ${var}, which neither the build "
+              f"statement (defines {sorted(bs.vars)}) nor ninja "
+              f"({sorted(NINJA_BUILTIN_VARS)}) provides: it expands to nothing",
+              {"defined": sorted(defined)})
+  for flag, role, want in (("--imports_info", "imports", None),
+                           ("--module-name", "module", None),
+                           ("-o", None, "$out")):
+    if flag not in table:
+      ctx.bad(f"command:{flag}", RUN, fn.lineno,
+              f"the command has no {flag} taking a ninja variable",
+              {"flags": sorted(table)})
+      continue
+    got, line = table[flag]
+    if role is not None:
+      if role not in roles:
+        ctx.bad(f"command:{flag}", RUN, line,
+                f"no build variable carries the {role} of the step "
+                f"(variables: { {k: src(v) for k, v in bs.vars.items()} })")
+        continue
+      want = "$" + roles[role]
+    ctx.check(got == want, f"command:{flag}", RUN, line,
+              f"{flag} is given {got!r} but the {role or 'output'} of the "
+              f"step is in {want!r}", {"value": got, "expected": want})
+  # $in is an argument of the command
+  rets = [n for n in walk_no_nested(fn) if isinstance(n, ast.Return)]
+  has_in = any(isinstance(n, ast.Constant) and n.value == "$in"
+               and isinstance(mod.parent.get(n), ast.List)
+               for r in rets for o in rd.origins(r.value) if o.expr is not None
+               for n in ast.walk(o.expr))
+  ctx.check(has_in, "command:$in-is-an-argument", RUN, fn.lineno,
+            "the source file ($in) is not among the command's arguments")
+
+
+# -- R19.7 ---------------------------------------------------------------------------
+
+def _open_of_write(mod, fn, what):
+  rd = ReachingDefs(mod, fn)
+  out = []
+  for c in calls_in(fn):
+    if isinstance(c.func, ast.Attribute) and c.func.attr == "write" \
+        and isinstance(c.func.value, ast.Name):
+      d = rd.single_def(c.func.value, "file handle")
+      if d.kind != "with" or dotted(getattr(d.value, "func", None)) != "open":
+        raise AnalysisError(f"{what}: file handle is not `with open(..)`")
+      out.append(d.value)
+  if not out:
+    raise AnalysisError(f"{what}: no write through an open() handle")
+  return out
+
+
+@rule("R19.7", "C19", floor=5)
+def r19_7(ctx):
+  """The plan is complete, in one file, before ninja starts."""
+  m = _model(ctx)
+  mod = m.mod
+  pre = mod.func("PytypeRunner.write_ninja_preamble")
+  for fn, label, want in ((pre, "write_ninja_preamble", "w"),
+                          (m.wbs, "write_build_statement", "a")):
+    opens = _open_of_write(mod, fn, label)
+    modes, targets = set(), set()
+    for o in opens:
+      modes.add(try_fold(o.args[1], mod=mod) if len(o.args) > 1 else
+                try_fold(next((k.value for k in o.keywords if k.arg == "mode"),
+                              ast.Constant("r")), mod=mod))
+      targets.add(src(o.args[0]) if o.args else None)
+    ctx.check(modes == {want} and targets == {"self.ninja_file"},
+              f"{label}:opens-ninja-file-{want}", RUN, opens[0].lineno,
+              f"{label} opens {sorted(map(str, targets))} with mode(s) "
+              f"{sorted(map(str, modes))}; the preamble must truncate ('w') and "
+              "every build statement must append ('a') to self.ninja_file, "
+              "otherwise earlier statements are lost",
+              {"modes": sorted(map(str, modes)), "files": sorted(map(str, targets))})
+  # order inside setup_build
+  sb = m.sb
+  wbs_stmt = mod.enclosing_stmt(m.wbs_call)
+
+  def calls(name):
+    return lambda u: any(_self_method(c) == name for c in flow.unconditional_calls(u))
+  ctx.check(executes_before(mod, sb, calls("write_ninja_preamble"), wbs_stmt),
+            "setup_build:preamble-before-build-statements", RUN, wbs_stmt.lineno,
+            "write_ninja_preamble (which truncates the file) must run on every "
+            "path before the first build statement is appended")
+  wi_stmt = mod.enclosing_stmt(m.wi_call)
+  # the early exit `if not self.make_imports_dir(): return` counts as executed
+  def dir_made(u):
+    return any(_self_method(c) == "make_imports_dir" for c in ast.walk(u)
+               if isinstance(c, ast.Call))
+  ctx.check(executes_before(mod, sb, dir_made, wi_stmt)
+            and len(m.wdp_calls) == 1
+            and executes_before(mod, sb, dir_made, mod.enclosing_stmt(m.wdp_calls[0])),
+            "setup_build:imports-dir-before-files", RUN, wi_stmt.lineno,
+            "make_imports_dir must run before the default stub and the "
+            "imports files are written into that directory")
+  # run(): the plan is written before ninja runs
+  run = mod.func("PytypeRunner.run")
+  builds = [c for c in calls_in(run) if _self_method(c) == "build"]
+  b = _one(builds, "self.build() call in run")
+  ctx.check(executes_before(mod, run, calls("setup_build"), mod.enclosing_stmt(b)),
+            "run:setup_build-before-build", RUN, b.lineno,
+            "ninja (self.build()) is started on a path that has not written "
+            "the plan and the default stub (self.setup_build())")
